@@ -142,8 +142,16 @@ func (s Sample) Mean() float64 {
 		//   m_i = (1 - w_i/wsum_i) * m_(i-1) + (w_i/wsum_i) * x_i
 		//       = m_(i-1) + (x_i - m_(i-1)) * (w_i/wsum_i)
 		w := s.Weights[i]
+		if w == 0 {
+			// A zero weight contributes nothing; skip it so
+			// that a leading one does not divide by zero.
+			continue
+		}
 		wsum += w
 		m += (x - m) * w / wsum
+	}
+	if wsum == 0 {
+		return math.NaN()
 	}
 	return m
 }
@@ -174,9 +182,15 @@ func (s Sample) GeoMean() float64 {
 	m, wsum := 0.0, 0.0
 	for i, x := range s.Xs {
 		w := s.Weights[i]
+		if w == 0 {
+			continue
+		}
 		wsum += w
 		lx := math.Log(x)
 		m += (lx - m) * w / wsum
+	}
+	if wsum == 0 {
+		return math.NaN()
 	}
 	return math.Exp(m)
 }
@@ -265,7 +279,11 @@ func (s Sample) Percentile(pctile float64) float64 {
 	} else {
 		// TODO(austin): Implement interpolation
 
-		target := s.Weight() * pctile
+		total := s.Weight()
+		if total == 0 {
+			return math.NaN()
+		}
+		target := total * pctile
 
 		// TODO(austin) If we had cumulative weights, we could
 		// do this in log time.
